@@ -45,7 +45,7 @@ func genC12(t *rapid.T) c12Case {
 			}
 			body = m.Or(subs...)
 		default:
-			body = g.formula(0)
+			body = g.bounded(40)
 		}
 		name := fmt.Sprintf("shape%d", i)
 		c.Shapes = append(c.Shapes, name)
